@@ -242,6 +242,59 @@ fn header_cases(fx: &Fixture, st: &mut Stats, rng: &mut Rng, meta_lens: &[Option
                         }
                     }
                 }
+                // alteration of the *structure* of the serialized header (framing stays valid): trap
+                // list shortened / emptied / extended, encapsulation list emptied or doubled. Whatever
+                // parses must be refused (error or None) by every key, never panic, never open.
+                if let (Some(Ok(w)), true) = (ser(&header).ok().map(|b| crate::wire::WHeader::parse(&b)), gen_aad.is_none()) {
+                    let mut variants: Vec<(&str, crate::wire::WHeader)> = vec![];
+                    let mut m = w.clone();
+                    m.enc.traps.pop();
+                    variants.push(("last-trap-removed", m));
+                    let mut m = w.clone();
+                    if !m.enc.traps.is_empty() {
+                        m.enc.traps.remove(0);
+                    }
+                    variants.push(("first-trap-removed", m));
+                    let mut m = w.clone();
+                    m.enc.traps.clear();
+                    variants.push(("no-trap", m));
+                    let mut m = w.clone();
+                    if let Some(t) = m.enc.traps.last().cloned() {
+                        m.enc.traps.push(t);
+                    }
+                    variants.push(("trap-appended", m));
+                    let mut m = w.clone();
+                    m.enc.encs.clear();
+                    variants.push(("no-encapsulation", m));
+                    let mut m = w.clone();
+                    let again = m.enc.encs.clone();
+                    m.enc.encs.extend(again);
+                    variants.push(("encapsulations-doubled", m));
+                    for (name, v) in variants {
+                        st.bump("header_structural_alterations");
+                        let bytes = v.write();
+                        match de::<EncryptedHeader>(&bytes) {
+                            Out::Err(_) => {}
+                            Out::Panic(m) => fail(st, &format!("altered-serialized-header-panics:deserialize:{name}"), m),
+                            Out::Ok(h2) => {
+                                for (label, usk, _, _) in &fx.keys {
+                                    let out = call(|| h2.decrypt(&fx.cc, usk, None));
+                                    match out {
+                                        Out::Panic(m) => {
+                                            fail(st, &format!("altered-serialized-header-panics:decrypt:{name}"), format!("key {label} ({flavour}): {m}"));
+                                            break;
+                                        }
+                                        Out::Ok(Some(_)) if name != "encapsulations-doubled" => {
+                                            fail(st, &format!("altered-serialized-header-accepted:{name}"), format!("key {label} ({flavour}) decrypts it"));
+                                            break;
+                                        }
+                                        _ => {}
+                                    }
+                                }
+                            }
+                        }
+                    }
+                }
                 // truncation / alteration of the encrypted metadata
                 if let (Some(em), true) = (&header.encrypted_metadata, gen_aad.is_none()) {
                     let usk = &fx.keys[0].1;
